@@ -109,3 +109,23 @@ contract(P + "_get_modes", types={"decay_chain": "dict"}, requires=[],
 contract(P + "_get_fs", types={"decay": "dict"}, requires=["dhas(decay, 'fs')"],
          ensures=["same(result, dget(decay, 'fs'))", "typ(result, 'list')"],
          raises={"TypeError": "not typ(dget(decay, 'fs'), 'list')"}, properties=["C11"])
+
+D = "decay_mode_dict"
+contract(P + "DecayMode.from_dict", types={D: "dict"},
+         requires=[f"forallv(lambda k: implies(dhas({D}, k), typ(k, 'str')))",
+                   f"implies(dhas({D}, 'bf'), typ(dget({D}, 'bf'), 'float', 'int'))",
+                   f"implies(dhas({D}, 'fs'), typ(dget({D}, 'fs'), 'list', 'tuple'))",
+                   f"implies(dhas({D}, 'fs') and typ(dget({D}, 'fs'), 'list', 'tuple'), forall(lambda j: implies(0 <= j < llen(dget({D}, 'fs')), typ(lget(dget({D}, 'fs'), j), 'str'))))",
+                   f"not dhas({D}, 'daughters') and not dhas({D}, 'self')"],
+         ensures=["isfresh(result) and typ(result, 'obj:DecayMode')",
+                  f"same(result.bf, dget({D}, 'bf'))",
+                  # (the final state -- every name of 'fs' with its multiplicity -- is proved for DecayMode.__init__ on the list it
+                  # is given; carrying it through the private deep copy made here needs a chain of five instantiations that
+                  # neither solver finds: that clause stays with the bounded round-trip check of C11)
+                  "isfresh(result.daughters) and isfresh(result.metadata)",
+                  # every other entry is metadata of the mode (model information and user keys); the input is not touched
+                  f"forallv(lambda k: dhas(result.metadata, k) == (k == 'model' or k == 'model_params' or (dhas({D}, k) and k != 'bf' and k != 'fs')))",
+                  f"implies(not dhas({D}, 'model'), dget(result.metadata, 'model') == '')",
+                  f"implies(not dhas({D}, 'model_params'), dget(result.metadata, 'model_params') == '')"],
+         raises={"RuntimeError": f"not (dhas({D}, 'bf') and dhas({D}, 'fs'))"},
+         returns="obj:DecayMode", properties=["C11"])
